@@ -1,7 +1,8 @@
 (* C13 -- executable model of rig.machine_control.machine_controller.SlicedMemoryIO / MemoryIO
-   (file-like views of an allocated block of memory), as the code is NOW (after the repair
-   "fix: MemoryIO transfers could leave the view when the cursor was outside it"), plus a model
-   [*_orig] of read/write as they were BEFORE that repair (for the refutation theorems).
+   (file-like views of an allocated block of memory), as the code is NOW, i.e. after the repairs
+   "fix: MemoryIO transfers could leave the view when the cursor was outside it" (read/write) and
+   "fix: slicing a closed or freed MemoryIO handed out a usable view" (__getitem__ guarded), plus a
+   model [*_orig] of the code AS FOUND, before both repairs (for the refutation theorems).
    Definitions only, no proofs.
 
    A view is (start address, end address, offset, closed).  All views of one allocation share the
@@ -183,12 +184,14 @@ Inductive op :=
 Definition dead (fr : bool) (v : view) : bool := v_closed v || fr.
 
 (* one method call on view v: the view afterwards, the view created (if any), what the caller sees.
-   __getitem__, __len__ and close carry no guard decorator in the code. *)
+   __len__ and close carry no guard decorator in the code; __getitem__ checks the guard first, then
+   the kind of slice. *)
 Definition vstep (fr : bool) (m : mem) (v : view) (o : vop) : view * option view * output :=
   match o with
   | Len => (v, None, ok (VInt (vlen v)))
   | Slice a b step =>
-      if contiguous step
+      if dead fr v then (v, None, err 0)
+      else if contiguous step
       then let w := slice_view v a b in (v, Some w, ok (VView (v_start w) (v_end w)))
       else (v, None, err 1)
   | Close =>
@@ -203,11 +206,15 @@ Definition vstep (fr : bool) (m : mem) (v : view) (o : vop) : view * option view
   | Flush => if dead fr v then (v, None, err 0) else (v, None, ok VNone)
   end.
 
-(* the same with the read/write of the code as found *)
+(* the code as found: read/write before the repair, __getitem__ without the guard *)
 Definition vstep_orig (fr : bool) (m : mem) (v : view) (o : vop) : view * option view * output :=
   match o with
   | Read n => if dead fr v then (v, None, err 0) else let '(v', r) := read_orig m v n in (v', None, r)
   | Write bs => if dead fr v then (v, None, err 0) else let '(v', r) := write_orig v bs in (v', None, r)
+  | Slice a b step =>
+      if contiguous step
+      then let w := slice_view v a b in (v, Some w, ok (VView (v_start w) (v_end w)))
+      else (v, None, err 1)
   | _ => vstep fr m v o
   end.
 
